@@ -52,6 +52,11 @@ ATOMS = {a.name: a for a in [
     Atom("disc_random", "binomial_distribution(3, 0.5).random()", "int", "random", 2, (DI, "sample"), 1, 0, [None, None]),
     Atom("disc_sample", "uniform_distribution(1, 6).sample({0})", "Sequence<int>", "random", 2, (DI, "sample"), 0, 1, [None, 0]),
     Atom("seq_sample", "[1, 2, 3, 4].sample({0})", "Sequence<int>", "random", 2, (S, "sample"), 0, 1, [None, 0]),
+    # long sequences take the index-picking branch of XSequence::sample (len > 6 + 4^(bits(3k)/2)), short ones the pool branch
+    Atom("seq_sample_pick3", "range(30).sample(3)", "Sequence<int>", "random", 2, (S, "sample"), 0, 0, [None, None]),
+    Atom("seq_sample_pick1", "range(12).sample(1)", "Sequence<int>", "random", 2, (S, "sample"), 0, 0, [None, None]),
+    Atom("seq_sample_pick10", "range(200).map((i: int) -> {i * 2}).sample(10)", "Sequence<int>", "random", 2, (S, "sample"), 0, 0, [None, None]),
+    Atom("shuffle_long", "range(40).shuffle()", "Sequence<int>", "random", 2, (S, "sample"), 1, 0, [None, None]),
     Atom("shuffle", "[1, 2, 3].shuffle()", "Sequence<int>", "random", 2, (S, "sample"), 1, 0, [None, None]),
     Atom("sample_counts", "sample([1, 2, 3], 2, [1, 1, 1])", "Sequence<int>", "random", 2, (S, "sample"), 3, 0, [None, None]),
     Atom("random_choices", "[1, 2, 3].random_choices(2)", "Sequence<int>", "random", 2, (DI, "sample"), 1, 0, [None, None]),
